@@ -22,7 +22,8 @@ from harness import core
 RHO = 1e-8
 QUARTER = 0.25
 
-INVARIANTS = ["TablesWellFormed", "AssemblyIsDocumentedMatrix", "SizeIsParamCount", "Symmetric", "FormDeterminesMatrix",
+STAGES = ("fresh", "after-solve", "preloaded", "preloaded-after-solve", "second-inversion", "preload-source")
+INVARIANTS = ["HistoryIndependent", "TablesWellFormed", "AssemblyIsDocumentedMatrix", "SizeIsParamCount", "Symmetric", "FormDeterminesMatrix",
               "FormOnTernaryVectors", "SylvesterSmall", "RidgeByHomogeneity", "SplitAssemblyIsSumOfSquares",
               "SplitFormOnTernaryVectors", "BlocksInObjectOrder", "OffBlocksAreZero", "UnregularisedBlockIsZero",
               "ReducedIsRegularisedBlocks"]
@@ -31,12 +32,15 @@ CFG_MC = """CONSTANTS
   RectShapes <- MCRectShapes
   Graphs <- MCGraphs
   C2Q <- MCC2Q
-  ZerothPairs <- MCZerothPairs
-  WeightPairs <- MCWeightPairs
+  ZerothSet <- MCZerothSet
+  WeightSet <- MCWeightSet
   Patterns <- MCPatterns
   Splits <- MCSplits
   ObjKinds <- MCObjKinds
   MaxObjs <- MCMaxObjs
+  Stages <- MCStages
+  StageMaxObjs <- MCStageMaxObjs
+  StageKinds <- MCStageKinds
   MaxTernary = 6
 SPECIFICATION Spec
 """ + "".join(f"INVARIANT {x}\n" for x in INVARIANTS)
@@ -45,12 +49,15 @@ CFG_TRACE = """CONSTANTS
   RectShapes = {}
   Graphs = {}
   C2Q = {}
-  ZerothPairs = {}
-  WeightPairs = {}
+  ZerothSet = {}
+  WeightSet = {}
   Patterns = {}
   Splits = {}
   ObjKinds = {}
   MaxObjs = 0
+  Stages = {}
+  StageMaxObjs = 0
+  StageKinds = {}
   MaxTernary = 6
 SPECIFICATION TraceSpec
 POSTCONDITION TraceAccepted
@@ -421,7 +428,9 @@ def records_for_inst(inst, verts, seed):
     kind, scheme = inst["kind"], inst["scheme"]
     if kind == "blocks":
         kinds = [(int(o[0]), bool(o[1])) for o in inst["objs"]]
-        return [blocks_record(kinds, seed, history=HISTORIES[(sum(p + 5 * int(g) for p, g in kinds) + len(kinds)) % 3])]
+        stage = inst.get("stage", "fresh")
+        history = HISTORIES[(sum(p + 5 * int(g) for p, g in kinds) + len(kinds)) % 3] if stage == "fresh" else "fresh"
+        return [blocks_record(kinds, seed, history=history, stage=stage)]
     if kind == "split":
         return [synthetic_split_record(inst["_split"])]
     m = inst["mesh"]
@@ -446,7 +455,7 @@ def records_for_inst(inst, verts, seed):
     bright = set(int(b) for b in inst["bright"])
     wa, wb = int(inst["wa"]), int(inst["wb"])
     if mesh == "rect":
-        ss = float(rng.choice([0.5, 1.0, 2.0, 3.0]))
+        ss = float(rng.choice([0.0, 0.5, 1.0, 2.0, 3.0]))
         reg = (aa.reg.AdaptiveBrightness(inner_coefficient=float(wa), outer_coefficient=float(wb), signal_scale=ss) if scheme == "adaptive"
                else aa.reg.BrightnessZeroth(coefficient=float(wa), signal_scale=ss))
         return [exact_record(scheme, mesh, lin, reg, unit=1.0, need_w=True, desc=desc, history=history, prior_none=prior_none)]
@@ -541,7 +550,12 @@ def split_record(name, verts, seed, adaptive):
     scheme = "adaptive_split" if adaptive else "constant_split"
     try:
         if adaptive:
-            a, b, ss = float(rng.uniform(0.2, 1.0)), float(rng.uniform(0.2, 1.0)), float(rng.choice([0.5, 1.0, 2.0]))
+            a, b, ss = float(rng.uniform(0.2, 1.0)), float(rng.uniform(0.2, 1.0)), float(rng.choice([0.0, 0.5, 1.0, 2.0]))
+            coincide = float(rng.random())
+            if coincide < 0.3:
+                b = a
+            elif coincide < 0.4:
+                a = b = 1.0
             reg, reg2, f, k = aa.reg.AdaptiveBrightnessSplit(a, b, ss), aa.reg.AdaptiveBrightnessSplit(2 * a, 2 * b, ss), 16.0, 15
             desc = {"inner": a, "outer": b, "signal_scale": ss}
         else:
@@ -607,16 +621,23 @@ def fixed_record(seed, verts_family):
     rng = np.random.default_rng(seed)
     mesh, lin, desc = random_mapper(rng, verts_family)
     n = int(lin.params)
-    ss = float(rng.choice([0.5, 1.0, 1.5, 2.0]))
+    ss = float(rng.choice([0.0, 0.5, 1.0, 1.5, 2.0]))
     adaptive = rng.random() < 0.7
+    coincide = float(rng.random())  # coefficient coincidences: inner == outer, coefficient exactly 1
     scheme = "adaptive" if adaptive else "brightness_zeroth"
     try:
         if adaptive:
             a, b = float(rng.uniform(0.1, 1.0)), float(rng.uniform(0.1, 1.0))
+            if coincide < 0.3:
+                b = a
+            elif coincide < 0.4:
+                a = b = 1.0
+            elif coincide < 0.5:
+                a = 1.0
             reg, reg2 = aa.reg.AdaptiveBrightness(a, b, ss), aa.reg.AdaptiveBrightness(2 * a, 2 * b, ss)
             desc.update({"inner": a, "outer": b, "signal_scale": ss})
         else:
-            c = float(rng.uniform(0.2, 2.0))
+            c = 1.0 if coincide < 0.25 else float(rng.uniform(0.2, 2.0))
             reg, reg2 = aa.reg.BrightnessZeroth(c, ss), None
             desc.update({"coefficient": c, "signal_scale": ss})
         history = HISTORIES[int(rng.integers(0, 3))]
@@ -694,8 +715,20 @@ def kernel_record(seed, verts_family, small, wide=None):
 # ------------------------------------------------------------------------------------------------------------
 # records: blocks (inversion level)
 # ------------------------------------------------------------------------------------------------------------
-def blocks_record(kinds, seed, scheme_mix=False, history="fresh"):
-    """kinds: [(p, reg)] with p in KIND_OF_P -> a real aa.Inversion over those linear objects, in that order"""
+def _solve(inv):
+    """what a fit does with an inversion before its evidence is read: F + H, the reconstruction, the log-determinants.
+    Failures of the solver itself are not C07's business (C05): only curvature_reg_matrix must be evaluated"""
+    inv.curvature_reg_matrix
+    for name in ("reconstruction", "log_det_curvature_reg_matrix_term", "regularization_term"):
+        try:
+            getattr(inv, name)
+        except Exception:
+            pass
+
+
+def blocks_record(kinds, seed, scheme_mix=False, history="fresh", stage="fresh"):
+    """kinds: [(p, reg)] with p in KIND_OF_P -> a real aa.Inversion over those linear objects, in that order.
+    stage: the inversion-level history before the judged read (Regularization!HistRead)"""
     import autoarray as aa
     from harness.drivers import inv_common as ic
 
@@ -713,6 +746,7 @@ def blocks_record(kinds, seed, scheme_mix=False, history="fresh"):
     scheme = "".join("R" if g else "-" for _, g in kinds)
     rec = base_record("blocks", scheme, mesh, sum(p for p, _ in kinds))
     rec["desc"] = {"kinds": [[int(p), bool(g)] for p, g in kinds]}
+    rec["stage"] = stage
     try:
         ds, lobjs, skw = ic.build(inst)
         rec["history"] = history
@@ -733,7 +767,26 @@ def blocks_record(kinds, seed, scheme_mix=False, history="fresh"):
                                      if scheme_mix and k % 2 else aa.reg.Constant(coefficient=c))
             else:
                 lo.regularization = None
-        inv = aa.Inversion(dataset=ds, linear_obj_list=lobjs, settings=aa.SettingsInversion(**skw))
+
+        def new_inversion(preloads=None):
+            kw = {} if preloads is None else {"preloads": preloads}
+            return aa.Inversion(dataset=ds, linear_obj_list=lobjs, settings=aa.SettingsInversion(**skw), **kw)
+
+        # ---- the inversion-level history, then the judged inversion `inv`
+        if stage in ("fresh", "after-solve"):
+            inv = new_inversion()
+            if stage == "after-solve":
+                _solve(inv)
+        else:
+            source = new_inversion()
+            preloads = aa.Preloads(regularization_matrix=source.regularization_matrix,
+                                   log_det_regularization_matrix_term=source.log_det_regularization_matrix_term)
+            first = new_inversion(preloads)
+            if stage == "preloaded":
+                inv = first
+            else:
+                _solve(first)
+                inv = {"preloaded-after-solve": first, "preload-source": source}.get(stage) or new_inversion(preloads)
         full = inv.regularization_matrix
         red = inv.regularization_matrix_reduced
         owns = [lo.regularization_matrix for lo in lobjs]
@@ -741,9 +794,13 @@ def blocks_record(kinds, seed, scheme_mix=False, history="fresh"):
         anyreg = any(g for _, g in kinds)
         # what the evidence needs: the Cholesky factorization of the reduced matrix and the log-determinant term exist
         rec["chol"] = cholesky_exists(red) if anyreg else True
+        rec["ld"], rec["ld_ref"] = 0, 0
         try:
             ld = inv.log_det_regularization_matrix_term
             rec["logdet_ok"] = bool(np.isfinite(float(np.real(ld))) and abs(float(np.imag(ld))) == 0.0)
+            if rec["logdet_ok"] and rec["chol"] and abs(float(np.real(ld))) < 1e6:
+                rec["ld"] = int(np.rint(1000.0 * float(np.real(ld))))
+                rec["ld_ref"] = int(np.rint(1000.0 * 2.0 * float(np.sum(np.log(np.diag(np.linalg.cholesky(red))))))) if anyreg else 0
         except Exception as e:
             rec["logdet_ok"] = False
             rec["logdet_err"] = f"{type(e).__name__}: {str(e)[:80]}"
@@ -810,7 +867,9 @@ def records_for_job(job):
     elif j == "kernel":
         recs = [kernel_record(job["seed"], fam, job["small"], job.get("wide"))]
     elif j == "blocks":
-        recs = [blocks_record([tuple(k) for k in job["kinds"]], job["seed"], scheme_mix=True, history=HISTORIES[job["seed"] % 3])]
+        stage = STAGES[(job["seed"] // 3) % len(STAGES)]
+        recs = [blocks_record([tuple(k) for k in job["kinds"]], job["seed"], scheme_mix=True,
+                              history=HISTORIES[job["seed"] % 3] if stage == "fresh" else "fresh", stage=stage)]
     else:
         raise core.MachineryError(f"unknown job {j}")
     for r in recs:
@@ -862,17 +921,23 @@ def run(ctx):
     side = (3, 4, 5) if quick else (3, 4, 5, 6)
     shapes = [(h, w) for h in side for w in side]
     c2q = [1, 4, 16, 36] if quick else [1, 4, 9, 16, 36]
-    zpairs = [(1, 36), (4, 16), (16, 4), (36, 1), (4, 4), (36, 36)] if quick else [(a, b) for a in c2q for b in c2q]
-    wpairs = [(1, 2), (2, 1)]
+    zset = [1, 4, 36] if quick else c2q   # constant-zeroth: every pair of these (c, cz in {1/2, 1, 3}), equal values included
+    wset = [1, 2]                         # exact adaptive: every (inner, outer) pair, equal values included
+    stage_max_objs = 2 if quick else 3
+    stage_kinds = [(9, True), (1, True), (1, False), (2, True)] if quick else [(p, g) for p in sorted(KIND_OF_P) for g in (False, True)]
+    patterns = [1, 3, 4] if quick else [1, 2, 3, 4]
     kinds = [(p, g) for p in sorted(KIND_OF_P) for g in (False, True)]
     max_objs = 3 if quick else 4
     defs = "\n".join([
         "MCRectShapes == {" + ", ".join(f"<<{h},{w}>>" for h, w in shapes) + "}",
         "MCGraphs == " + tla(graphs),
         "MCC2Q == " + tla(set(c2q)),
-        "MCZerothPairs == {" + ", ".join(f"<<{a},{b}>>" for a, b in zpairs) + "}",
-        "MCWeightPairs == {" + ", ".join(f"<<{a},{b}>>" for a, b in wpairs) + "}",
-        "MCPatterns == {1, 2, 3, 4}",
+        "MCZerothSet == " + tla(set(zset)),
+        "MCWeightSet == " + tla(set(wset)),
+        "MCStages == " + tla(set(STAGES)),
+        f"MCStageMaxObjs == {stage_max_objs}",
+        "MCStageKinds == {" + ", ".join(f"<<{p},{tla(g)}>>" for p, g in stage_kinds) + "}",
+        "MCPatterns == " + tla(set(patterns)),
         "MCSplits == " + tla([{k: v for k, v in s.items() if k != "w"} for s in splits]),
         "MCObjKinds == {" + ", ".join(f"<<{p},{tla(g)}>>" for p, g in kinds) + "}",
         f"MCMaxObjs == {max_objs}",
@@ -880,12 +945,14 @@ def run(ctx):
     res = ctx.tlc("Regularization", CFG_MC, defs=defs, tag="MC_Regularization", timeout=1700)
     insts = res.by_kind("inst")
     n_mesh = len(shapes) + len(graphs)
-    expect = n_mesh * (len(c2q) + len(zpairs) + len(c2q) + 2 * len(wpairs) * 4) + len(splits) + sum(len(kinds) ** k for k in range(1, max_objs + 1))
+    expect = (n_mesh * (len(c2q) + len(zset) ** 2 + len(c2q) + (len(wset) ** 2 + len(wset)) * len(patterns)) + len(splits)
+              + sum(len(kinds) ** k for k in range(1, max_objs + 1)) + (len(STAGES) - 1) * sum(len(stage_kinds) ** k for k in range(1, stage_max_objs + 1)))
     if len(insts) != expect or res.distinct != 2 * expect:
         raise core.MachineryError(f"Regularization.tla enumerated {len(insts)} instances / {res.distinct} states, expected {expect}")
     ctx.exhaustive = True
     ctx.bounds = {"rectangular_meshes": f"{side[0]}..{side[-1]} x {side[0]}..{side[-1]} (all {len(shapes)})", "delaunay_vertex_sets": {n: len(v) for n, v in family},
-                  "coefficients_4c2": c2q, "constant_zeroth_pairs_4c2_4cz2": [list(z) for z in zpairs], "adaptive_exact": "inner/outer in {(1,2),(2,1)} x 4 bright-pixel patterns",
+                  "coefficients_4c2": c2q, "constant_zeroth_4c2_4cz2": f"every pair of {zset}", "adaptive_exact": f"every (inner, outer) pair of {wset} x {len(patterns)} bright-pixel patterns, signal_scale in {{0, 1/2, 1, 2, 3}}",
+                  "inversion_histories": f"{list(STAGES)} for every object list of length 1..{stage_max_objs} over the kinds {stage_kinds}; random lists (length 1..4) take a random one",
                   "synthetic_split_instances": len(splits), "object_lists": f"all lists of length 1..{max_objs} over {len(kinds)} kinds (mapper 3x3, mapper 3x4, 1- and 2-function lists; with / without regularization)",
                   "ternary_vectors_up_to_n": 6, "exact_minors_up_to_n": 4,
                   "wide_kernel_meshes_rows_cols_ratio_gaussian": "filled below"}
@@ -968,6 +1035,9 @@ def run(ctx):
         "inversion.log_det_regularization_matrix_term), validated like `raised`, not recomputed by TLC",
         "ridge of fixed-point schemes observed through H(2*coefficients) - f*H(coefficients) = -(f-1)*1e-8*I, float error of both runs bounded below 0.005 ridge units",
         "alpha splits H = u*Q + 1e-8*R with residual <= 1e-12 and rejects anything else (offlattice clause)",
+        "inversion-level histories: the solve step evaluates curvature_reg_matrix, then reconstruction / log_det_curvature_reg_matrix_term / regularization_term "
+        "with solver failures ignored (C05 decides the solver); the log-determinant term is compared with 2*sum(log(diag(cholesky(reduced matrix as read)))) "
+        "in fixed point 1e-3 with tolerance 1e-2 (both are floating-point observations; the comparison is TLC's)",
     ]
 
 
